@@ -28,6 +28,7 @@ Further reading on DAG circuit representation:
 https://qiskit.org/documentation/stubs/qiskit.converters.circuit_to_dag.html
 """
 
+import copy
 import functools
 import re
 import string
@@ -1175,7 +1176,8 @@ class CircuitDAG(CircuitBase):
         return empty_circ
 
     def _noisy_gates(self, noise_model_map):
-        seq = self._slim_seq()
+        # work on copies: the noisy circuit must not share (and re-label) the operations of this circuit
+        seq = [copy.deepcopy(op) for op in self._slim_seq()]
         noisy_ops = []
         for op in seq:
             is_controlled = False
